@@ -51,8 +51,8 @@ type C16Case struct {
 }
 
 var (
-	C16KeysNwk = [][]byte{mustHex("01020304050607080102030405060708"), mustHex("f0e0d0c0b0a090807060504030201000")}
-	C16KeysApp = [][]byte{mustHex("0f0e0d0c0b0a09080706050403020100"), mustHex("00112233445566778899aabbccddeeff")}
+	C16KeysNwk = [][]byte{mustHex("01020304050607080102030405060708"), mustHex("f0e0d0c0b0a090807060504030201000"), make([]byte, 16)}
+	C16KeysApp = [][]byte{mustHex("0f0e0d0c0b0a09080706050403020100"), mustHex("00112233445566778899aabbccddeeff"), make([]byte, 16)}
 	C16EUIs    = [][8]byte{{0x01, 0x02, 0x03, 0x04, 0x05, 0x06, 0x07, 0x08}, {0xA1, 0xB2, 0xC3, 0xD4, 0xE5, 0xF6, 0x07, 0x18}, {0xFF, 0xFF, 0xFF, 0xFF, 0x00, 0x00, 0x00, 0x01}}
 	c16KEK16   = mustHex("00112233445566778899aabbccddeeff")
 	c16KEK32   = mustHex("000102030405060708090a0b0c0d0e0f101112131415161718191a1b1c1d1e1f")
@@ -373,7 +373,7 @@ func runC16(r *engine.Run) {
 	}
 
 	// ---- A: crypto tuples
-	spA := (&engine.Space{}).Dim("kind", 4).Dim("nwkkey", 2).Dim("appkey", 2).Dim("deveui{A,B,unknown}", 3).Dim("joineui", 2).Dim("nonce", 3).Dim("netid", 2).Dim("optneg", 2).Dim("echo tuple", 2)
+	spA := (&engine.Space{}).Dim("kind", 4).Dim("nwkkey{A,B,all-zero}", 3).Dim("appkey{A,B,all-zero}", 3).Dim("deveui{A,B,unknown}", 3).Dim("joineui", 2).Dim("nonce", 3).Dim("netid", 2).Dim("optneg", 2).Dim("echo tuple", 2)
 	r.PartDims("A/crypto-tuples", spA.Desc(), spA.N(), func(c *engine.Case) {
 		var ch [9]int
 		spA.Decode(c.Index, ch[:])
